@@ -249,6 +249,33 @@ def run(ctx, rep):
                 rep.ob("undefined-function", "is_undefined:closure", ok, f"the closure is exactly sym.is_undefined(): {why}", c.file, c.line)
             except decide.NotLoopFree as e:
                 rep.ob("undefined-function", "is_undefined:closure", False, str(e), c.file, c.line)
+    # ---- a weak reference is defined iff the definition finally selected for it lives in a loaded file ----------------------------
+    # At lookup time a weak reference only knows the *first* definition of its name, which may sit in an archive member that is never
+    # loaded (a weak reference does not pull it in). Whether the reference ends up defined must be judged from the definition selected
+    # after alternative definitions were resolved - otherwise `main.o libx.a b.o` leaves the reference null although b.o defines it.
+    rep.rule("weak-current-definition", "canonicalise_undefined_symbols decides `weak reference is defined` from the file of SymbolDb::definition(reference), not from the file remembered at lookup time")
+    cu = F.body("libwild::resolution::canonicalise_undefined_symbols")
+    cands = [cu] + list(F.closures_of("libwild::resolution::canonicalise_undefined_symbols")) if cu is not None else []
+    tests = []
+    for b_ in cands:
+        fl_, cf_ = P.flow(b_), P.cfg(b_)
+        import mir as _mir
+        for sb in cf_.reach:
+            es = _mir.enum_switch(F, b_, fl_, cf_, sb)
+            if es and es[0].endswith("resolution::ResolvedFile") and any(v == frozenset({"NotLoaded"}) for v in es[1].values()):
+                o = fl_.deep_origins(b_.blocks[sb]["t"]["d"])
+                names = {(x[1] or "").split("::")[-1] for x in o if x[0] == "call"}
+                tests.append((b_, sb, names))
+    if cu is None:
+        rep.lost("weak-current-definition", "resolution::canonicalise_undefined_symbols")
+    else:
+        rep.ob("weak-current-definition", "loaded-test", len(tests) >= 1, f"{len(tests)} test(s) of ResolvedFile::NotLoaded in canonicalise_undefined_symbols", cu.file, cu.line)
+        for b_, sb, names in tests:
+            ok = "definition" in names and "file_id_for_symbol" in names
+            rep.ob("weak-current-definition", "from-current-definition", ok, (f"the file tested is file_id_for_symbol(definition(reference)) (calls: {sorted(names)})" if ok else
+                   f"the file tested for being loaded does not come from SymbolDb::definition (calls: {sorted(names)}): a weak reference whose first definition is in an unloaded archive member "
+                   "resolves to zero even when a loaded object defines the symbol"), b_.file, b_.blocks[sb]["t"]["l"])
+
     # ---- references are recorded under their own symbol id -----------------------------------------------------------------
     rep.rule("reference-index", "in resolve_symbols every use of the per-chunk enumerate index goes through start_symbol_offset + index (the symbol id an undefined or weak reference is recorded under is the reference's own)")
     import chunkidx
